@@ -187,7 +187,7 @@ def _state_group(args):
 def run(tier, workers=None):
     rep = Reporter("C17", tier)
     names = {"cal": ["a.ics", "b.ics"], "ab": ["a.vcf"], "c2": []}
-    bodies = {"cal": ["X", "X2", "Z"], "ab": ["K"], "c2": []}
+    bodies = {"cal": ["X", "X2", "ZE"], "ab": ["KE"], "c2": []}  # ZE / KE carry characters outside the Basic Multilingual Plane
     cfgs = [
         Config(front="wsgi", backend="tree", prefix="/dav/", names=names, bodies=bodies, features=set()),
         Config(front="aio", backend="tree", prefix="/", names=names, bodies=bodies, features=set()),
